@@ -19,6 +19,14 @@ T = {
  ("C07","b"): ("other_property","C11","C11:side_effect_order:WriteA+WriteB","workspace lock released before the tool's frames are published: every run still has a well-formed lifecycle (C07 holds); what breaks is the cross-run order of side-effect frames, which is C11. Caught by C11 as built"),
  ("C08","a"): ("caught_as_built","C08","C08:reference:message_count",""),
  ("C08","b"): ("caught_as_built","C08","C08:reference:selected_checkpoints",""),
+ ("C09","a"): ("caught_as_built","C09","C09:auto_created_wrong_checkpoints / C09:schedule_effects",""),
+ ("C09","b"): ("caught_after_strengthening","C09","C09:job_summaries_for_one_cut_differ","missed: needs two overlapping jobs for one cut point (plan A, plan B, run A, run B). The run half of a spawned job became an op (25 overlapping-job histories) and the summaries that auto jobs render for one cut are compared (modulo the producing job's id)"),
+ ("C10","a"): ("caught_after_strengthening","C10","C10:race:answer_of_neither_order:Handoff|Message:OpenTurn","missed: needs an append to the parent between branch's replay and its read of the in-memory counter. C10 now explores a branch / handoff racing one append at system-call granularity (reader-vs-appender harness); the new code takes the seq lock without a hook, which first stopped the scheduler (machinery exit 2) - the scheduler now detects an actor blocked on an unhooked lock (/proc task state) and lets the holder run"),
+ ("C10","b"): ("caught_as_built","C10","C10:refusal_with_effect:handoff",""),
+ ("C11","a"): ("caught_after_strengthening","C11","C11:mutation_outside_workspace_guard:checkpoint:WriteA+CheckpointCreate","missed: the checkpoint path drops the guard at once, so guard spans never overlap; the checkpoint action itself had no span. A span around checkpoint create / rewind was added (hook) and every mutating span must lie inside a guard span of the same run"),
+ ("C11","b"): ("caught_after_strengthening","C11","C11:side_effect_frame_count:WriteA+WriteTimeout0","missed: no input ended in tool_failed after mutating. The input 'write with timeout_ms 0' was added (the mutation lands, the call fails, one side-effects frame is still due)"),
+ ("C12","a"): ("caught_after_strengthening","C12","C12:atomicity:failed_patch_changed_files","missed: needs an op that fails half-way (target whose parent is a regular file) after another op changed a file. The path a/z (parent a is a file) was added to the path alphabet"),
+ ("C12","b"): ("caught_as_built","C12","C12:exact:reference_fails_real_succeeds",""),
 }
 def main():
     for (pid,var),(status,by,sig,note) in T.items():
